@@ -850,6 +850,9 @@ func (r *vpRun) register(w *vpWorld) {
 		}
 		r.emit(fmt.Sprintf("p desc %d %d %d %d %s %d %s %d %s %s", i, w.typeID(d.Type), w.keyID(d.Key), w.grpID(d.Group), life, reg.idx+1, kind, disp, dash(sibs, ","), dash(deps, ";")), "ok")
 	}
+	// the structural hypotheses of the container theorems (WF, RegWF, InstSingleton, InstDistinct) are
+	// evaluated by the model driver on the descriptors just dumped: they must hold for everything godi registers
+	r.emit("p hyp", "ok")
 	for k, v := range w.beh {
 		r.emit(fmt.Sprintf("p beh %d %d %s", k[0], k[1], v), "ok")
 	}
